@@ -43,6 +43,7 @@ type c07Scenario struct {
 	ctxKind   int // 0 none, 1 cancel, 2 deadline
 	ctxAt     time.Duration
 	nilPanics bool // callbacks that panic do it with a nil value
+	redNil    bool // the reducer's result is nil (a value like any other)
 }
 
 var c07Entries = [...]string{"MapReduce", "MapReduceVoid", "MapReduceChan", "ForEach", "Finish", "FinishVoid"}
@@ -109,6 +110,20 @@ func c07Gen(r *zsim.Run) c07Scenario {
 	// a panic is a panic whatever its value: recover() hands back nil for panic(nil) under the module's
 	// language version (go 1.19), so code that tells a panic by recover() != nil does not see this one
 	sc.nilPanics = faulty && f.Intn(4) == 3
+	sc.redNil = o.Intn(8) == 0
+	if o.Intn(10) == 0 && sc.entry <= 2 {
+		// the context ends in the very instant in which the result is produced: no callback takes time, the
+		// cancellation is one more runnable task, and the scheduler decides who comes first - the reducer's write,
+		// the cancellation, or the caller's look at both
+		sc.ctxKind, sc.ctxAt, sc.genSleep, sc.genPanic = 1, 0, 0, -1
+		sc.redMode, sc.redWrites = 0, 1
+		if len(sc.items) > 2 {
+			sc.items = sc.items[:2]
+		}
+		for i := range sc.items {
+			sc.items[i].pre, sc.items[i].post, sc.items[i].act = 0, 0, 0
+		}
+	}
 	return sc
 }
 
@@ -136,7 +151,7 @@ type c07State struct {
 	redInv     int64 // reducer's decisive action: first Write invoked / returned without write
 	redInvAt   time.Duration
 	redWrote   int
-	redValue   int
+	redValue   any
 	redAll     bool // the reducer saw its pipe closed
 	genDone    bool
 	running    int // user callbacks still executing
@@ -278,9 +293,13 @@ func (st *c07State) reducer(pipe <-chan any, w Writer, cancel func(error)) {
 	for k := 0; k < sc.redWrites && w != nil; k++ {
 		st.decisive()
 		st.redWrote++
-		st.redValue = sum
-		st.r.Logf("reduce write %d", sum)
-		w.Write(sum)
+		var out any = sum
+		if sc.redNil {
+			out = nil
+		}
+		st.redValue = out
+		st.r.Logf("reduce write %v", out)
+		w.Write(out)
 	}
 	st.decisive()
 }
